@@ -258,6 +258,75 @@ def run(tier):
         extra = set(vd["test_data"]) - set(e2e_zones)
         if extra:
             v.violation("c19:generator-script-extra-zone", "validation_data.json holds a zone that was not asked for", {"lib": lib, "zones": sorted(extra)[:5]})
+    # the third generator, tools/compare_java/TestDataGenerator.java (java.time): compiled with javac and run as its Makefile
+    # runs it; oracle = java.time itself through an independent probe (java/Probe.java: changes found by scanning and
+    # bisecting getOffset/getDaylightSavings, not by nextTransition). Zone lists contain names java.time does not know, in
+    # first / middle / last position: the output must stay well-formed and complete for the known zones.
+    import shutil
+    if not (shutil.which("javac") and shutil.which("java")):
+        v.inconclusive_because("no JDK: the java.time generator was not exercised")
+    else:
+        jdir = work / "java"
+        jdir.mkdir()
+        pc = subprocess.run(["javac", "-d", str(jdir), str(VERIF / "java" / "Probe.java"), str(REPO / "tools" / "compare_java" / "TestDataGenerator.java")],
+                            capture_output=True, text=True, timeout=600)
+        if pc.returncode != 0:
+            v.violation("c19:java-generator-does-not-compile", "TestDataGenerator.java does not compile", {"stderr": pc.stderr[-600:]})
+        else:
+            def probe(lines):
+                pr_ = subprocess.run(["java", "-cp", str(jdir), "Probe"], input="\n".join(lines) + "\n", capture_output=True, text=True, timeout=600)
+                return pr_.stdout.splitlines()
+            known = ["America/Los_Angeles", "Europe/London", "Australia/Lord_Howe", "Asia/Kathmandu", "America/Caracas", "Pacific/Apia", "Africa/Casablanca", "Etc/UTC"]
+            lists = {"all-known": known,
+                     "unknown-first": ["AAA/Nowhere"] + known, "unknown-middle": known[:4] + ["Europe/Nowhere"] + known[4:],
+                     "unknown-last": known + ["Zzz/Nowhere"], "two-unknown": ["AAA/Nowhere"] + known[:3] + ["Mid/Nowhere"] + known[3:] + ["Zzz/Nowhere"]}
+            sy, uy = 2009, 2013
+            for lname, zl in lists.items():
+                rdir = jdir / ("run-" + lname)
+                rdir.mkdir()
+                pg = subprocess.run(["java", "-cp", str(jdir), "TestDataGenerator", "--start_year", str(sy), "--until_year", str(uy)],
+                                    input="# zones\n\n" + "\n".join(zl) + "\n", capture_output=True, text=True, timeout=900, cwd=str(rdir))
+                tot["java_runs"] = tot.get("java_runs", 0) + 1
+                jf = rdir / "validation_data.json"
+                try:
+                    jd = json.loads(jf.read_text())
+                except Exception as e:  # noqa
+                    v.violation("c19:java-generator-output-malformed", "validation_data.json written by the java.time generator is not well-formed JSON",
+                                {"zone_list": lname, "zones": zl, "rc": pg.returncode, "error": repr(e)[:200]})
+                    continue
+                kz = [ln.split()[1] for ln in probe(["Z " + z for z in zl]) if ln.endswith(" known")]
+                if sorted(jd["test_data"]) != sorted(kz) or (jd.get("start_year"), jd.get("until_year")) != (sy, uy):
+                    v.violation("c19:java-generator-zone-set", "the java.time generator's output does not hold exactly the zones java.time knows (or states another range)",
+                                {"zone_list": lname, "in_file": sorted(jd["test_data"]), "known": sorted(kz)})
+                    continue
+                for z in kz:
+                    items = jd["test_data"][z]
+                    by_epoch = {it["epoch"]: it for it in items}
+                    tot["java_zones"] = tot.get("java_zones", 0) + 1
+                    q_ = ["C %s %d %d" % (z, sy, uy)] + ["S %s %d %d 1 0" % (z, y, mth) for y in range(sy, uy) for mth in range(1, 13)] + \
+                         ["S %s %d 12 31 23" % (z, y) for y in range(sy, uy)] + ["I %s %d" % (z, it["epoch"]) for it in items]
+                    ans = probe(q_)
+                    changes = [int(x.split()[1]) for x in ans if x.startswith("C ") and x != "C end"]
+                    samples_ = [int(x.split()[1]) for x in ans if x.startswith("S ")]
+                    infos_ = [x.split()[1:] for x in ans if x.startswith("I ")]
+                    for ch in changes:
+                        tot["java_changes"] = tot.get("java_changes", 0) + 1
+                        if ch - 1 not in by_epoch or ch not in by_epoch:
+                            v.violation("c19:transition-not-bracketed", "a change java.time exhibits inside the range has no item pair on either side of it",
+                                        {"lib": "java.time", "zone": z, "change_epoch": ch})
+                            break
+                    miss = [e for e in samples_ if e not in by_epoch]
+                    if miss:
+                        v.violation("c19:sample-missing", "a monthly / year-end sample is missing", {"lib": "java.time", "zone": z, "missing_epochs": miss[:4]})
+                    for it, inf in zip(items, infos_):
+                        tot["java_items_checked"] = tot.get("java_items_checked", 0) + 1
+                        got = [it["total_offset"], it["dst_offset"], it["y"], it["M"], it["d"], it["h"], it["m"], it["s"]]
+                        if [int(x) for x in inf] != got:
+                            v.violation("c19:item-differs-from-library", "an item's fields are not what the library reports at its epoch",
+                                        {"lib": "java.time", "zone": z, "item": it, "library": inf})
+                            break
+            if tot.get("java_zones", 0) < 30 or tot.get("java_changes", 0) < 50:
+                v.inconclusive_because("the java.time generator was not exercised enough: %r" % {k: n for k, n in tot.items() if k.startswith("java")})
     if tot.get("e2e_zones", 0) < 16:
         v.inconclusive_because("the generator scripts were not exercised end to end: %r" % {k: n for k, n in tot.items() if k.startswith("e2e")})
     if tot.get("configs", 0) < 500 or tot.get("library_changes", 0) < 5000 or tot.get("rendered_items", 0) < 5000:
